@@ -39,9 +39,11 @@ func (r *Reader) VerifClone(onMsg func([]byte, int32)) *Reader {
 		if f.Kind() != reflect.Slice || f.IsNil() {
 			continue
 		}
-		cp := reflect.MakeSlice(f.Type(), f.Len(), f.Cap())
-		reflect.Copy(cp, f)
-		reflect.NewAt(f.Type(), unsafe.Pointer(f.UnsafeAddr())).Elem().Set(cp)
+		// unexported fields are reached through their address
+		w := reflect.NewAt(f.Type(), unsafe.Pointer(f.UnsafeAddr())).Elem()
+		cp := reflect.MakeSlice(f.Type(), w.Len(), w.Cap())
+		reflect.Copy(cp, w)
+		w.Set(cp)
 	}
 	return &c
 }
